@@ -12,6 +12,7 @@ package main
 // with the Lean model's prediction for the same script.
 
 import (
+	"bytes"
 	"context"
 	"crypto"
 	"crypto/rsa"
@@ -40,8 +41,11 @@ type c10Case struct {
 	km, ca    string
 	hist      int
 	overwrite bool
-	script    map[int]int
-	seed      uint64
+	// collide: the request names the object that holds the CURRENT PRIMARY's certificate (serial override =
+	// the primary's subject serial, same common name) — the input class of the repaired finding D22
+	collide bool
+	script  map[int]int
+	seed    uint64
 	// results
 	op, impl string
 	reached  bool
@@ -138,6 +142,21 @@ func runC10Case(cs *c10Case, snaps map[string]*e1Snap, pre, post int) {
 	// serial numbers as the CLI chooses them (cmd/rotate.go): current primary's subject serial + 1
 	cn := "sig"
 	serial := in.nextSerial()
+	collideSuffix := ""
+	var primaryObj string
+	var primaryObjBefore []byte
+	if cs.collide {
+		serial-- // the current primary's own subject serial
+		if cs.hist == 0 {
+			cn = e1SignCN // the first signing key was certified by the bootstrap under this common name
+		}
+		collideSuffix = "serial-override-collides-with-primary-certificate"
+		primaryObj = fmt.Sprintf("%s/%s-%d.crt", e1CertDir, cn, serial)
+		primaryObjBefore = in.objects()[primaryObj]
+		if primaryObjBefore == nil {
+			panic("c10 collide: the primary's certificate object " + primaryObj + " does not exist")
+		}
+	}
 	opHead := fmt.Sprintf("c10 op=rot km=%s ca=%s hist=%d ow=%s script=%s pk=%d,%d cn=%s serial=%d",
 		cs.km, map[string]string{"memca": "memca", "gcsmem": "gcsca", "gcslocal": "gcsca"}[cs.ca], cs.hist, b2s(cs.overwrite),
 		scriptString(cs.script), pre, post, cn, serial)
@@ -186,7 +205,26 @@ func runC10Case(cs *c10Case, snaps map[string]*e1Snap, pre, post int) {
 		cs.find("c10/rotate.Key/destroy-before-commit/"+fc, destroyEarly, replay)
 	}
 	if cl, d := c10Oracle(in); cl != "" {
-		cs.find("c10/rotate.Key/"+cl+"/"+fc, "after a faulted rotation and reload: "+d, replay)
+		if cs.collide {
+			// the signature under which this class was a known finding before gcsca.upload was repaired
+			cs.find("c10/rotate.Key/"+cl+"/"+collideSuffix,
+				"rotation whose serial override reuses the primary's certificate object name, after reload: "+d, replay)
+		} else {
+			cs.find("c10/rotate.Key/"+cl+"/"+fc, "after a faulted rotation and reload: "+d, replay)
+		}
+	}
+	if cs.collide {
+		// the refusal, stated on the implementation alone: the object that holds the primary's certificate is
+		// never written (whatever --overwrite says), and a rotation that got as far as Finalize does not succeed
+		if after := in.objects()[primaryObj]; !bytes.Equal(after, primaryObjBefore) {
+			cs.find("c10/rotate.Key/primary-cert-object-changed/"+collideSuffix,
+				"the object holding the recorded primary's certificate was replaced by a rotation with a colliding serial override: "+primaryObj, replay)
+		}
+		if strings.HasPrefix(res, "ok") {
+			cs.find("c10/rotate.Key/collision-accepted/"+collideSuffix,
+				"a rotation whose certificate object is the recorded primary's returned success", replay)
+		}
+		cs.counts = append(cs.counts, "collide/"+stack+"/res-"+strings.SplitN(res, ".", 2)[0])
 	}
 	// destroy-after-commit on the recorded log: an executed destroy of the old primary must be
 	// preceded by a completed manifest write (gcsca) / completed Finalize (memca).
@@ -394,7 +432,12 @@ func runC10(c *Ctx) {
 		runBatch(rnd, pre, post)
 		emit(rnd)
 	}
-	// 5. the input class excluded by the theorems' `Fresh` hypothesis (direct oracle only)
-	runC10Collide(c, snaps)
+	// 5. the input class of the repaired finding D22 (formerly excluded by the theorems' `Fresh` hypothesis):
+	//    the request names the primary's own certificate object. Fault-free, every single fault, with and
+	//    without overwrite; model correspondence + direct oracle like every other case.
+	collBase, collSingles := c10CollideCases(c, base, runBatch, pre, post)
+	emit(collBase)
+	emit(collSingles)
+	c.Extra["cases_collide_base_single"] = []int{len(collBase), len(collSingles)}
 	_ = context.Background
 }
